@@ -321,13 +321,25 @@ def t5_wiring(ctx):
               'load_json does not restore integer keys')
 
 
-def _delims(fi):
-    """(delimiter expression) used by csv.writer/csv.reader in fi, expanded."""
+def _delims(fi, repo=None):
+    """(csv call, delimiter expression expanded, function in which that expression lives); a delimiter computed by a helper of the
+    same module is followed into the helper's single return expression."""
     for c in q.calls_named(fi, 'writer', 'reader'):
         d = q.kwarg(c, 'delimiter')
         if d is not None:
-            return c, fi.expand(d)
-    return None, None
+            e = fi.expand(d)
+            home = fi
+            if repo is not None and isinstance(e, ast.Call) and isinstance(e.func, ast.Name):
+                try:
+                    g = repo.func(M, e.func.id)
+                except Exception:
+                    g = None
+                if g is not None:
+                    rets = [r for r in g.returns() if r.value is not None]
+                    if len(rets) == 1:
+                        e, home = g.expand(rets[0].value), g
+            return c, e, home
+    return None, None, fi
 
 
 def _ifexp_table(e):
@@ -341,8 +353,8 @@ def t3_tsv(ctx):
     pairs = [('write_tsv', 'read_tsv'), ('_write_tsv_simple', '_read_tsv_simple')]
     for wn, rn in pairs:
         w, r = repo.func(M, wn), repo.func(M, rn)
-        wc, wd = _delims(w)
-        rc, rdl = _delims(r)
+        wc, wd, _wh = _delims(w, repo)
+        rc, rdl, rhome = _delims(r, repo)
         wt, rt = _ifexp_table(wd) if wd is not None else None, _ifexp_table(rdl) if rdl is not None else None
         if not wt or not rt:
             ctx.undecided('C18.T3', w, 'delimiter choice of %s/%s is not a two-way constant table' % (wn, rn), wc or rc)
@@ -362,6 +374,20 @@ def t3_tsv(ctx):
         ctx.check(r_ok and {ra, rb} == {wa, wb}, 'C18.T3', r, rdl,
                   '%s selects the delimiter it sniffs in the header, from the same table {tab, comma} as %s' % (rn, wn),
                   '%s chooses between %r and %r on `%s`, %s writes %r/%r' % (rn, ra, rb, unparse(rtest), wn, wa, wb))
+        # what is sniffed: only the header line. String cells are in the property's quantifier and may contain the other delimiter,
+        # so a sniff over more of the file picks the wrong delimiter for a comma-separated table holding a tab in a cell
+        sniffed = rcmp[2] if rcmp is not None else None
+        if sniffed is not None:
+            sx = rhome.expand(sniffed)
+            st_ = unparse(sx).replace(' ', '')
+            mname = q.method_name(sx) if isinstance(sx, ast.Call) else None
+            if mname == 'readline' or (isinstance(sx, ast.Call) and dotted(sx.func) == 'next') or st_.endswith('.readlines()[0]') or st_.endswith('.splitlines()[0]'):
+                ctx.holds('C18.T3', rhome, '%s sniffs the delimiter in the header line only' % rn, sx)
+            elif mname in ('read', 'read_text', 'readlines') or (isinstance(sx, ast.Call) and dotted(sx.func) in ('str', 'repr')):
+                ctx.violated('C18.T3', rhome, sx, '%s sniffs the delimiter in `%s`, which covers data rows: a comma-separated table with a tab inside a string cell is read as '
+                             'tab-separated (rows collapse into one column)' % (rn, unparse(sx)))
+            else:
+                ctx.undecided('C18.T3', rhome, 'text in which %s sniffs the delimiter not recognised' % rn, sx)
         ctx.check(dotted(wc.func).endswith('writer') and dotted(rc.func).endswith('reader'), 'C18.T3', w, wc,
                   'csv.writer / csv.reader pair', 'writer/reader pair mismatch')
     # write_tsv: None for absent fields, first_field first then sorted
